@@ -263,7 +263,8 @@ class ModelGen:
                 self.enums.append((fqn + [en], e))
         if rng.random() < 0.2:
             sn = fresh(rng, inner_taken, 'camel')
-            s = M.SubInt([sn], 0, rng.randint(1, 9))
+            slo = rng.choice([0, 0, 1, -3])
+            s = M.SubInt([sn], slo, slo + rng.randint(0, 9))
             itf.types.append(s)
             self.subints.append((fqn + [sn], s))
         self._place(node, itf)
@@ -351,7 +352,8 @@ class ModelGen:
         sub_replies = []
         if rng.random() < 0.5:
             sn = fresh(rng, taken | {name}, 'camel')
-            sub = M.SubInt([sn], 0, rng.randint(1, 9))
+            slo = rng.choice([0, 0, 1, -3])
+            sub = M.SubInt([sn], slo, slo + rng.randint(0, 9))
             itf.types.append(sub)
             self.subints.append((fqn + [sn], sub))
             taken.add(sn)
